@@ -94,15 +94,16 @@ func H_C08_rejected_err_pq() {
 	vReach("C08.rejected.err-pq.end")
 }
 
-// ---- C09: burst of two jobs on a worker with concurrency 2 (two pool goroutines, REAL loop); PauseAndWait by
-// the client: nothing starts after it returned, except through the known check-dequeue-dispatch window.
+// ---- C09: two pending jobs, concurrency 1, REAL loop: the first job may finish while the dispatcher is still in
+// its burst; PauseAndWait by the client: nothing starts after it returned, except through the known
+// check-dequeue-dispatch window (the running-check must be repeated for every dispatch of a burst).
 func H_C09_burst() {
 	quiet := false
 	var tick atomic.Int32
 	w, q := mWorkerLoop(func(j Job[int]) {
 		vAssert("C09.burst.no-start-while-paused", !quiet)
 		tick.Add(1)
-	}, 2, 2)
+	}, 1, 1)
 	q.Add(0)
 	q.Add(1)
 	vPrologueEnd()
@@ -246,5 +247,62 @@ func H_C18_pool_size() {
 		vReach("C18.pool-size.quiescent")
 		// library goroutines: the event loop + pool goroutines
 		vAssert("C18.max-goroutines", vLibGoroutinesAlive() <= 2 && w.NumIdleWorkers() <= 1)
+	})
+}
+
+// mSignalDispatcher: a transcription of the event loop that dispatches only when woken through the worker's real
+// signal channel (one attempt per wake-up; with concurrency 1 the real inner loop cannot do more). The completion
+// path, the notifications and the pool are the real code. The real loop itself is covered by H_C02_guard,
+// H_C03_saturated (thorough) and the end-to-end harnesses.
+func mSignalDispatcher[J iJob[int]](w *worker[int, J]) {
+	sig := w.eventLoopSignal
+	<-sig
+	mDispatch(w)
+	<-sig
+	mDispatch(w)
+	<-sig
+	mDispatch(w)
+	<-sig
+}
+
+// ---- C03: saturated worker, two jobs, wake-ups through the real signal channel: no dead end with a job pending.
+func H_C03_saturated_m() {
+	runs := 0
+	w, q := mWorker(func(j Job[int]) {
+		runs++
+		if runs == 2 {
+			vReach("C03.saturated-m.second-job-started")
+		}
+	}, 1, 1)
+	q.Add(0)
+	q.Add(1)
+	vPrologueEnd()
+	go func() { mSignalDispatcher(w) }()
+	vAtQuiescence(func() {
+		vReach("C03.saturated-m.quiescent")
+		vAssert("C03.saturated-m.all-run", runs == 2)
+		vAssert("C03.saturated-m.none-pending", w.NumPending() == 0 && w.NumProcessing() == 0)
+	})
+}
+
+// ---- C18: same, with the second job submitted concurrently (its wake-up may arrive while the first job's pool
+// goroutine is between its in-flight decrement and its return to the pool): never more live pool goroutines than
+// the concurrency at rest.
+func H_C18_pool_size_m() {
+	n := 0
+	w, q := mWorker(func(j Job[int]) {
+		n++
+		if n == 2 {
+			vReach("C18.pool-size-m.second-job-started")
+		}
+	}, 1, 1)
+	q.Add(0)
+	vPrologueEnd()
+	go func() { mSignalDispatcher(w) }()
+	go func() { q.Add(1) }()
+	vAtQuiescence(func() {
+		vReach("C18.pool-size-m.quiescent")
+		vAssert("C18.pool-size-m.max-goroutines", vLibGoroutinesAlive() <= 1 && w.NumIdleWorkers() <= 1)
+		vAssert("C18.pool-size-m.one-idle", w.NumIdleWorkers() >= 1 || w.NumPending() > 0)
 	})
 }
